@@ -6,7 +6,8 @@
    + IsAssignable as the code is, `inst rx true` = IsInstance).  `rx` (Go regexp matching) is arbitrary. *)
 From Coq Require Import ZArith NArith Bool List.
 From PcoreV Require Import Model.Base Model.Ty Model.Lattice Model.Infer Model.InferHist Model.InferAsk Proofs.LatticeBasics Proofs.LatticeRule Proofs.InferProofs Proofs.InferCommon Proofs.InferInst Proofs.InferHistProofs Proofs.InferAskProofs
-  Proofs.LatticeTransSound Proofs.InferTransKeq Proofs.InferTransCommon Proofs.InferTransInst Proofs.InferTransDetailed.
+  Proofs.LatticeTransSound Proofs.InferTransKeq Proofs.InferTransCommon Proofs.InferTransInst Proofs.InferTransDetailed
+  Model.InferRuntime Proofs.InferRuntimeProofs.
 Import ListNotations.
 Open Scope Z_scope.
 
@@ -543,3 +544,74 @@ Example C04_history_ask_nonvacuous :
   dv_ok2 rx (nth 4 (vals_of ns) VUndef) = true /\ cv_ok0 (nth 4 (vals_of ns) VUndef) = true /\ cwf Sab = true /\
   LatticeRule.rule_free Sc (infer_detailed rx (nth 4 (vals_of ns) VUndef)) = true.
 Proof. vm_compute. repeat split; try reflexivity. discriminate. Qed.
+
+(* ---- Runtime types: leaf types with a second identity (a reflect.Type) behind their printed form ---- *)
+(* Model/InferRuntime.v; `gasg` = reflect's AssignableTo and `tname` = reflect.Type.String() are ARBITRARY functions in
+   every statement: two Go types may have the same name (tname x = tname y with x <> y), which is the input class of the
+   seeded change C04-m9.  The lattice model knows these types as the opaque TOther only. *)
+
+(* "T accepts the detailed type inferred for the value" and "the value is an instance of T" are the same answer, for
+   every Runtime type T (with or without reflect.Type, name, pattern) and every wrapped Go value: both directions of
+   the clause, no hypothesis (since fix 2ee6afd; before it Runtime['go', '', /x/] accepted every Go type) *)
+Theorem C04_runtime_accepts_iff_instance :
+  forall (gasg : N -> N -> bool) (tname : N -> str) (T : rty) (v : N),
+    rt_asg gasg T (rt_of tname v) = rt_inst gasg tname T v.
+Proof. exact rt_accepts_iff. Qed.
+Print Assumptions C04_runtime_accepts_iff_instance.
+
+(* a wrapped Go value is an instance of its own type (inferred = detailed): reflexivity of AssignableTo is all it takes *)
+Theorem C04_runtime_infer_inst :
+  forall (gasg : N -> N -> bool) (tname : N -> str), (forall x, gasg x x = true) ->
+  forall v, rt_inst gasg tname (rt_of tname v) v = true.
+Proof. exact rt_infer_inst. Qed.
+Print Assumptions C04_runtime_infer_inst.
+
+(* the common type of two Runtime types accepts both *)
+Theorem C04_runtime_common_ub :
+  forall (gasg : N -> N -> bool), (forall x, gasg x x = true) ->
+  forall a b, rt_asg gasg (rt_common gasg a b) a = true /\ rt_asg gasg (rt_common gasg a b) b = true.
+Proof. exact rt_common_ub. Qed.
+Print Assumptions C04_runtime_common_ub.
+
+(* the element type inferred for an array of wrapped Go values (the fold of commonType over their types) has every
+   element as an instance - where AssignableTo is transitive on the Go types involved.  _partial: Go's assignability is
+   NOT transitive in general (channel directions, named against unnamed types): open finding
+   go-assignability-not-transitive, refuted below *)
+Definition C04_runtime_array_statement (gasg : N -> N -> bool) (tname : N -> str) : Prop :=
+  forall vs t, rt_elem gasg tname vs = Some t -> Forall (fun v => rt_inst gasg tname t v = true) vs.
+Theorem C04_runtime_array_inst_partial :
+  forall (gasg : N -> N -> bool) (tname : N -> str),
+    (forall x, gasg x x = true) -> (forall x y z, gasg x y = true -> gasg y z = true -> gasg x z = true) ->
+    (forall x, tname x <> []) ->
+    C04_runtime_array_statement gasg tname.
+Proof. intros gasg tname Hr Ht Hn vs t. apply (rt_elem_inst gasg tname Hr Ht). intros v _. apply Hn. Qed.
+Print Assumptions C04_runtime_array_inst_partial.
+
+(* open finding go-assignability-not-transitive: 0 = chan int, 1 = a named chan int, 2 = a named <-chan int; 1 -> 0, 0 -> 1,
+   0 -> 2 and not 1 -> 2: [0; 1; 2] infers the element type Runtime['go', name of 2], of which 1 is no instance *)
+Example C04_go_assignability_not_transitive_refuted :
+  exists (gasg : N -> N -> bool) (tname : N -> str),
+    (forall x, gasg x x = true) /\ (forall x, tname x <> []) /\ ~ C04_runtime_array_statement gasg tname.
+Proof.
+  exists (fun x y => N.eqb x y || (N.eqb x 1 && N.eqb y 0) || (N.eqb x 0 && N.eqb y 1) || (N.eqb x 0 && N.eqb y 2))%N.
+  exists (fun x => [99; x]%N).
+  split; [intros x; rewrite N.eqb_refl; reflexivity|]. split; [discriminate|].
+  intros H. specialize (H [0; 1; 2]%N _ eq_refl).
+  inversion H as [|? ? _ H1]; subst. inversion H1 as [|? ? H2 _]; subst. vm_compute in H2. discriminate.
+Qed.
+
+(* non-vacuity, the input class of C04-m9: Go types 0 and 1 have the SAME name and are not assignable to each other; their
+   types print alike (same runtime, name, pattern) and are different types: neither accepts the other, neither has the
+   other's value as an instance, [0; 1] infers Runtime['go'] (which has both), and the interface type 2 that 0 implements
+   accepts the type of 0 only.  (The seeded change answered the first question by the names: true.) *)
+Example C04_runtime_same_name_nonvacuous :
+  let gasg := (fun x y => N.eqb x y || (N.eqb x 0 && N.eqb y 2))%N in
+  let tname := (fun x => if N.eqb x 2 then [73] else [69])%N in
+  let A := rt_of tname 0%N in let B := rt_of tname 1%N in let I := mkR s_go (tname 2%N) None (Some 2%N) in
+  tname 0%N = tname 1%N /\ r_name A = r_name B /\ rty_eqb A B = false /\
+  rt_asg gasg A B = false /\ rt_asg gasg B A = false /\ rt_inst gasg tname A 1%N = false /\ rt_inst gasg tname B 0%N = false /\
+  rt_elem gasg tname [0; 1]%N = Some (rt_of_runtime s_go) /\ rt_elem gasg tname [0; 0]%N = Some A /\
+  rt_asg gasg I A = true /\ rt_asg gasg I B = false /\ rt_inst gasg tname I 0%N = true /\ rt_inst gasg tname I 1%N = false /\
+  rt_common gasg I B = rt_of_runtime s_go /\ rt_common gasg A I = I /\
+  rt_asg gasg (mkR s_go [] (Some [120%N]) None) A = false /\ rt_inst gasg tname (mkR s_go [] (Some [120%N]) None) 0%N = false.
+Proof. vm_compute. repeat split; reflexivity. Qed.
